@@ -11,6 +11,7 @@ from vlib import consts as K  # noqa: E402
 from vlib import faultleg  # noqa: E402
 from vlib.env import Stage  # noqa: E402
 from vlib.objworld import program_st  # noqa: E402
+from vlib.worker import WorkerDied  # noqa: E402
 from vlib.runner import Violation, main  # noqa: E402
 
 WEIGHTS = {"open": 3, "close": 1, "login": 2, "logout": 1, "create": 10, "copy": 4, "destroy": 2, "set": 6, "gen": 3,
@@ -60,6 +61,23 @@ class C09(ObjCheck):
         self.run_fault(ctx, {"fault": True, "call": "destroy", "size": 10, "bsize": 4100, "seed": 1, "extra_objs": 0, "pos": 0, "anyop": False, "sticky": False, "errno": "",
                              "opname": "remove"})
         return ctx.kf.hits.get("KF-C09-03", 0) > before
+
+    def extra(self, ctx, tier, shard, nshards):
+        """deterministic sweep of the fault leg over every call kind and (a stated subset of / all) its file-system operations"""
+        cells, total = faultleg.sweep_cells(ctx, tier, shard, nshards, ctx.shared["fstage"], ctx.shared["tpl"])
+        ctx.extra["fault_sweep_cells_total"] = total if shard == 0 else 0
+        for prog in cells:
+            try:
+                self.run_fault(ctx, prog)
+                ctx.label("fault_sweep_cells")
+            except Violation as v:
+                v.program = prog
+                return v
+            except WorkerDied as d:
+                v = self.on_worker_death(ctx, prog, d)
+                if v is not None:
+                    return v
+        return None
 
     def run_fault(self, ctx, prog):
         r = faultleg.run(ctx, prog, ctx.shared["fstage"], ctx.shared["tpl"])
